@@ -114,6 +114,7 @@ type GhostSet struct {
 }
 
 type ContractSet struct {
+	ChanGhosts map[string]string // pkg::Type.field -> ghost seq variable
 	LockInvs map[string]*LockInv // pkg::Type.field
 	UFuncs   map[string]*UFunc
 	Axioms   []*SMTAxiom
@@ -126,13 +127,13 @@ type ContractSet struct {
 }
 
 func newContractSet() *ContractSet {
-	return &ContractSet{LockInvs: map[string]*LockInv{}, UFuncs: map[string]*UFunc{}, Funcs: map[string]*Contract{}, Specs: map[string]*SpecFn{}, Ghosts: map[string]*GhostVar{}}
+	return &ContractSet{ChanGhosts: map[string]string{}, LockInvs: map[string]*LockInv{}, UFuncs: map[string]*UFunc{}, Funcs: map[string]*Contract{}, Specs: map[string]*SpecFn{}, Ghosts: map[string]*GhostVar{}}
 }
 
 var clauseKw = map[string]bool{"props": true, "tier": true, "requires": true, "ensures": true, "modifies": true, "loop": true,
 	"panics": true, "inline": true, "pure": true, "assumes": true, "universe": true, "fresh": true, "params": true, "note": true, "funcparam": true, "ghostset": true}
 
-var topKw = map[string]bool{"lockonly": true, "lockinv": true, "lockguar": true, "ufunc": true, "smtaxiom": true, "func": true, "trusted": true, "spec": true, "ghost": true, "lemma": true, "axiom": true, "purepkg": true}
+var topKw = map[string]bool{"changhost": true, "lockonly": true, "lockinv": true, "lockguar": true, "ufunc": true, "smtaxiom": true, "func": true, "trusted": true, "spec": true, "ghost": true, "lemma": true, "axiom": true, "purepkg": true}
 
 type rawLine struct {
 	text string
@@ -292,6 +293,15 @@ func (cs *ContractSet) parseFile(fset *token.FileSet, f *ast.File, pkgPath strin
 			lm.Expr = parse(it, lm.Src)
 			cs.Lemmas = append(cs.Lemmas, lm)
 			cur = nil
+		case "changhost":
+			// changhost Type.field ghostSeq : a send on the channel stored in Type.field appends to ghostSeq
+			fs := strings.Fields(it.rest)
+			if len(fs) != 2 {
+				errf(it, "bad changhost")
+				continue
+			}
+			cs.ChanGhosts[pkgPath+"::"+fs[0]] = fs[1]
+			cur = nil
 		case "lockinv", "lockonly":
 			// lockinv T.lock protects T.f, ghost self x : inv
 			if it.kw == "lockonly" && !strings.Contains(it.rest, ":") {
@@ -382,7 +392,9 @@ func (cs *ContractSet) parseFile(fset *token.FileSet, f *ast.File, pkgPath strin
 				cur.Ensures = append(cur.Ensures, mkClause(it, "ensures"))
 			case "modifies":
 				cur.ModSet = true
-				if strings.TrimSpace(it.rest) != "nothing" {
+				if strings.HasPrefix(strings.TrimSpace(it.rest), "* except") {
+					cur.Modifies = append(cur.Modifies, strings.ReplaceAll(strings.TrimSpace(it.rest), ",", " "))
+				} else if strings.TrimSpace(it.rest) != "nothing" {
 					for _, m := range strings.Split(it.rest, ",") {
 						if m = strings.TrimSpace(m); m != "" {
 							cur.Modifies = append(cur.Modifies, m)
